@@ -45,6 +45,7 @@ func init() {
 		for _, m := range []string{"Add", "Delete", "Get", "GetNext", "LastSeen", "getUnlocked", "InterruptGetNext"} {
 			p.Units = append(p.Units, UnitPlan{"outputstream.OutputStream." + m, lk})
 		}
+		p.Units = append(p.Units, UnitPlan{"main.FSM.applyRobustMessage", lk}, UnitPlan{"main.FSM.sessionExpiration", lk})
 		// every method of api.HTTP: the pointers swapped by Restore are only touched under HTTP.mu
 		var apis []string
 		for name := range e.Funcs {
